@@ -1,5 +1,7 @@
 import Pk.Names
 import Pk.FitLaws
+import Pk.Denote
+import Pk.Inst
 /-! # C19 — Output feature names describe the columns they label
 
 `Pk/Names.lean` is the names function of every stage kind and `get_feature_names_out`.  Row-wise stages:
@@ -149,5 +151,50 @@ theorem C19_given_names (g : List String) (nx nu : Nat) (fitEp : Bool) (fmt : Fm
     | cons a t =>
       simp only [List.take_succ_cons, List.take_zero, List.drop_succ_cons, List.drop_zero, List.cons_append,
         List.nil_append, List.take_append_drop]
+
+/-- **whole-pipeline denotation.**  For EVERY tree there is one row of symbolic terms over the original
+features (`Stage.terms`) such that (1) the feature names are the terms printed with the string operations and the
+given input names, and (2) lifted row `r` of every typed episode, in every value domain, is the terms evaluated on
+that episode at time `r + loss` — `D k` looking `k` samples back, every other operation applied cell-wise.
+Name and value of a column are two readings of the same term: the name describes the column it labels. -/
+theorem C19_denotation {α : Type} (ops : Ops α) (ok : α → Prop) (fmt : Fmt) (s : S) (nm : Row String)
+    (X : Ep α) (hX : Typed nm.x.length nm.u.length X) :
+    Stage.names fmt s nm = (Stage.terms s (varsRow nm.x.length nm.u.length)).map (Term.render fmt nm)
+    ∧ ∀ r, r < (Stage.tr (rowFn ops ok) s X).length →
+        (Stage.tr (rowFn ops ok) s X)[r]?
+          = some ((Stage.terms s (varsRow nm.x.length nm.u.length)).map
+              fun t => Term.eval ops X t (r + Stage.loss s)) := by
+  constructor
+  · have h := Stage.names_eq_render fmt nm s (varsRow nm.x.length nm.u.length)
+    rw [varsRow_render] at h
+    exact h
+  · intro r hr
+    exact Stage.tr_eq_eval ops ok X s nm.x.length nm.u.length hX r hr
+
+/-- the law both halves rest on: every row-wise lifting function commutes with every homomorphism of cell
+operations (names, values, dependency sets, S-expressions are all such homomorphic images of the terms) -/
+theorem C19_rowwise_natural {α β : Type} {A : Ops α} {B : Ops β} {h : α → β} (hh : OpsHom A B h)
+    (k : Kind) (r : Row α) :
+    (rowFn B (fun _ => True) k).f (r.map h) = ((rowFn A (fun _ => True) k).f r).map h :=
+  rowFn_natural hh _ _ k r
+
+/-- a delayed term reads the episode `k` samples earlier; variables read the named column -/
+theorem C19_term_semantics {α : Type} (ops : Ops α) (X : Ep α) (k i τ : Nat) (t : Term) :
+    Term.eval ops X (.D k t) τ = Term.eval ops X t (τ - k)
+    ∧ Term.eval ops X (.vx i) τ = ((X.map (·.x)).getD τ []).getD i ops.one
+    ∧ Term.eval ops X (.vu i) τ = ((X.map (·.u)).getD τ []).getD i ops.one := by
+  simp [Term.eval]
+
+/-! non-vacuity: a delay followed by a degree-2 polynomial, names and values of the same columns -/
+def sDen : S := .pipe (.cons (.delay 1 0) (.cons (.rw (.poly 2 false)) .nil))
+def xDen : Ep Int := [⟨[2], [10]⟩, ⟨[3], [20]⟩, ⟨[5], [30]⟩]
+
+example : Stage.names .plain sDen ⟨["a"], ["b"]⟩
+    = ⟨["a", "D1(a)", "a^2", "a*D1(a)", "D1(a)^2"], ["b", "a*b", "D1(a)*b", "b^2"]⟩ := by decide +kernel
+example : Typed 1 1 xDen ∧ (Stage.tr (rowFn intOps) sDen xDen)[1]?
+    = some ⟨[5, 3, 25, 15, 9], [30, 150, 90, 900]⟩ := by
+  constructor
+  · intro r hr; simp [xDen] at hr; rcases hr with rfl | rfl | rfl <;> simp
+  · decide +kernel
 
 end Pk.C19
